@@ -17,7 +17,7 @@ import (
 const vhNumProds = 2
 const vhMaxTerms = 2   // terms in the first alternative of the root production
 const vhAlt2Terms = 1  // @tier quick=1 thorough=2
-const vhRootKinds = 9  // @tier quick=9 thorough=14
+const vhRootKinds = 10 // @tier quick=10 thorough=15
 const vhOtherTerms = 2 // terms of the second production
 
 type vgP0 struct {
@@ -52,6 +52,7 @@ const (
 	tOptSelf     // ( @@self )?
 	tLookSelf    // (?= @@self )
 	tNonEmptyOpt // ( "x"? )!
+	tNonEmptyCap // ( @( "x"? ) )!  - a capture of nothing still yields a value
 	// thorough only
 	tLitStar
 	tLitPlus
@@ -105,6 +106,10 @@ func vhBuildTerm(t vsTerm, self int, strcts []*strct) node {
 		return &lookaheadGroup{expr: vhCapture(self, strcts[self])}
 	case tNonEmptyOpt:
 		return &group{expr: &group{expr: vhLit(), mode: groupMatchZeroOrOne}, mode: groupMatchNonEmpty}
+	case tNonEmptyCap:
+		f, _ := vhProdTypes[self].FieldByName("X")
+		inner := &capture{field: structLexerField{StructField: f, Index: f.Index}, node: &group{expr: vhLit(), mode: groupMatchZeroOrOne}}
+		return &group{expr: inner, mode: groupMatchNonEmpty}
 	case tNegOther:
 		return &negation{node: vhCapture(self, strcts[t.other])}
 	}
@@ -156,7 +161,7 @@ func vhBuildGraph(prods []vsProd) []*strct {
 
 func vsTermNullable(t vsTerm, prods []vsProd, self int, depth int) bool {
 	switch t.kind {
-	case tLit, tLitPlus, tNegation, tNegOther:
+	case tLit, tLitPlus, tNegation, tNegOther, tNonEmptyCap:
 		return false
 	case tLitOpt, tLitStar, tLookPos, tLookNeg, tOptSelf, tLookSelf, tNonEmptyOpt:
 		// ( "x"? )! either fails or matches non-empty... it can also match
